@@ -45,13 +45,18 @@ def __getattr__(name):
             # Resolve ``s`` and ``axes`` as scipy does (the dask wrapper would pick
             # the first axes for a given ``s``, ignores an explicit ``axes=None``
             # and cannot handle -1 entries in ``s``).
-            given = dict(zip(("s", "axes", "norm"), args[:3]), **kwargs)
+            given = dict(zip(("s", "axes", "norm"), args[:3]))
+            if given.keys() & kwargs.keys():
+                raise TypeError(f"{name}() got multiple values for an argument")
+            given.update(kwargs)
             s, axes = given.get("s"), given.get("axes")
             # A bare integer stands for a sequence of one.
             if s is not None and not hasattr(s, "__len__"):
                 s = (s,)
             if axes is not None and not hasattr(axes, "__len__"):
                 axes = (axes,)
+            if axes is not None:
+                axes = tuple(operator.index(a) for a in axes)
             if axes is None and name.endswith("2") and "axes" not in given:
                 axes = (-2, -1)
             if axes is None and ("axes" in given or s is not None or name.endswith("n")):
@@ -79,8 +84,12 @@ def __getattr__(name):
         }
         if not name.endswith(("2", "n")):
             # (n, axis, norm) may be positional; the axis may be any integer type.
-            given = dict(zip(("n", "axis", "norm"), args[:3]), **kwargs)
-            if given.get("axis") is not None:
+            given = dict(zip(("n", "axis", "norm"), args[:3]))
+            if given.keys() & kwargs.keys():
+                raise TypeError(f"{name}() got multiple values for an argument")
+            given.update(kwargs)
+            if "axis" in given:
+                # (None is not an axis)
                 given["axis"] = operator.index(given["axis"])
             args, kwargs = args[3:], given
         # Tell dask the output dtype (it would otherwise transform an array of
